@@ -147,10 +147,13 @@ def inst(val, m):
     return out
 
 
-def atom(name, sizes, sym=False, kind="float"):
-    """A generic input tensor.  `sizes` entries: Dim/int; size 1 gives an empty axis."""
+def atom(name, sizes, sym=False, kind="float", owner=None):
+    """A generic input tensor.  `sizes` entries: Dim/int; size 1 gives an empty axis.
+    owner: tag of the object whose component batch the leading axis enumerates (for the parametricity rule)."""
     if name not in ST.head:
         ST.head[name] = HeadInfo("atom", sym=sym)
+    if owner is not None and sizes and not D(sizes[0]).is_one():
+        ST.head[name].extra = ("batch0", owner)
     axes = []
     idx = []
     for sz in sizes:
@@ -395,9 +398,30 @@ def reshape(v, target, what="reshape"):
         raise ShapeError(f"{what}: cannot reshape array of size {tot} {[str(s) for s in v.shape]} into shape {[str(t) for t in target]}")
     axes = []
     k = 0
-    for t in target:
+    extra = []          # Split factors appended to every term
+    ren = {}
+    ti = 0
+    for ti, t in enumerate(target):
         cur = D(1)
         grp = []
+        # split one index variable into several consecutive target axes (row-major) when its size is their product
+        if k < len(flat) and not t.is_one() and ST.size[flat[k]] != t:
+            prod = D(1)
+            j = ti
+            while j < len(target) and prod != ST.size[flat[k]]:
+                prod = prod * target[j]
+                j += 1
+                if j - ti > 4:
+                    break
+            if prod == ST.size[flat[k]] and j - ti >= 2 and all(not x.is_one() for x in target[ti:j]):
+                parts = [fresh(x, "p") for x in target[ti:j]]
+                hname = "Split:" + ",".join(str(x) for x in target[ti:j])
+                if hname not in ST.head:
+                    ST.head[hname] = HeadInfo("Split")
+                nb = fresh(ST.size[flat[k]], "b")
+                ren[flat[k]] = nb
+                extra.append((hname, (nb,) + tuple(parts)))
+                flat = flat[:k] + parts + flat[k + 1:]
         while cur != t:
             if k >= len(flat) or len(grp) > 8:
                 raise LayoutError(
@@ -409,6 +433,8 @@ def reshape(v, target, what="reshape"):
         axes.append(tuple(grp))
     if k != len(flat):
         raise LayoutError(f"{what}: leftover index factors")
+    if extra:
+        return Val(axes, [(c, Net(n.rename(ren).f + tuple(extra))) for c, n in v.terms], kind=v.kind)
     return Val(axes, v.terms, kind=v.kind)
 
 
@@ -582,11 +608,25 @@ def concat(vals, axis, what="concatenate"):
 
 def set_slices(base, slices, value, what=".at[].set"):
     """base.at[slices].set(value) for a zero / uninitialised base; slices: list per axis of (lo,hi) or None"""
-    if base.terms:
-        raise Undecided(".at[].set on a non-zero base")
     v = as_val(value)
     nd = len(base.axes)
     slices = list(slices) + [None] * (nd - len(slices))
+    if base.terms:
+        # allowed when every existing term lives in a region disjoint from the one being written
+        ok = False
+        for k, sl in enumerate(slices):
+            if sl is None or len(base.axes[k]) != 1:
+                continue
+            big = base.axes[k][0]
+            tot = axsize(base.axes[k])
+            lo = D(0) if sl[0] is None else D(sl[0])
+            hi = tot if sl[1] is None else D(sl[1])
+            hnew = seg_head(lo, hi - lo, tot)
+            if all(any(ST.head[h].kind == "E" and ix[0] == big and _seg_relation(h, hnew) == "disjoint" for h, ix in n.f) for _, n in base.terms):
+                ok = True
+                break
+        if not ok:
+            raise Undecided(".at[].set overwriting a region that may already hold values")
     tshape = []
     for k, sl in enumerate(slices):
         tot = axsize(base.axes[k])
@@ -616,7 +656,7 @@ def set_slices(base, slices, value, what=".at[].set"):
         if res.shape[k].is_one() and not tshape[k].is_one():
             res = mul(res, _ones_on_axis(nd, k, tshape[k]))
         res = embed_axis(res, k, lo, tot)
-    out = add(Val(base.axes, []), res, what=what)
+    out = add(Val(base.axes, base.terms), res, what=what)
     return out
 
 
